@@ -113,7 +113,15 @@ fn corpus(rng: &mut Rng) -> Vec<Vec<Req>> {
     }
     for i in 0..20 {
         let len = 2 + i % 4;
-        v.push(random_seq(rng, ALL_KINDS, len, "m", 10));
+        // the per-position operators below run the whole stream once per position and operator: a
+        // corpus stream with a megabyte pad (random_seq draws one now and then; seed 4 did) turned the
+        // quick tier into an hour of single-threaded work. Big messages have their own family
+        // ("oversized-*" in structured()), so the corpus keeps its pads at read-buffer size.
+        let mut s = random_seq(rng, ALL_KINDS, len, "m", 10);
+        for r in s.iter_mut() {
+            r.pad = r.pad.min(9_000);
+        }
+        v.push(s);
     }
     v
 }
@@ -332,6 +340,7 @@ pub fn run_memory(ctx: &Ctx) {
             let orig = seq_bytes(reqs);
             let desc = format!("{:?}", reqs.iter().map(|r| r.describe()).collect::<Vec<_>>());
             let stride = if ctx.tier == Tier::Quick && orig.len() > 150 { 3 } else { 1 };
+            let stride = stride.max(orig.len() / ctx.tier.pick(2_000, 12_000));
             let mut pos = 0;
             while pos < orig.len() {
                 for op in 0..per_pos_ops {
